@@ -652,6 +652,102 @@ def run(chk):   # noqa
     _stale_fiberptr(chk, prog)
     _markbit_rule(chk, prog)
     _viewpin_rule(chk, prog, S)
+    _threadedmark_rule(chk, prog)
+    _ringmark_rule(chk, prog)
+
+
+def _threadedmark_rule(chk, prog):
+    """Threaded abstracts are on no block list: the sweep never clears their mark bit, and `visited in this cycle` is
+    the `true` stored for them in janet_vm.threaded_abstracts.  If reaching that store depends on the mark bit, the
+    bit set in collection N hides the object from collection N+1: its table entry stays false, the sweep drops this
+    thread's reference and the finalizer runs on an object the program still holds."""
+    rule = "C01-THREADEDMARK"
+    chk.rule(rule, "marking a threaded abstract (the store into janet_vm.threaded_abstracts) is reached without consulting or setting the mark bit, which no sweep resets for such objects")
+    fn = prog.need_func("janet_mark_abstract", "gc.c")
+    chk.analysed(fn)
+    puts = [c for c in fn.calls("janet_table_put") if "threaded_abstracts" in c.text()]
+    if not puts:
+        raise AnalysisBroken("janet_mark_abstract: the store into janet_vm.threaded_abstracts was not found")
+    order = {id(x): i for i, x in enumerate(fn.nodes)}
+    IN, T = flow.condition_facts(fn)
+    for x, S in flow.states_at(fn, IN, T):
+        if x not in puts:
+            continue
+        chk.instance(rule)
+        bad = None
+        for ps in S:
+            for (op, l, r, toks, ln, rn) in ps:
+                for e in (ln, rn):
+                    if e is not None and any("janet_gc_reachable" in y.macro_names() or "JANET_MEM_REACHABLE" in y.macro_names() for y in e.walk()):
+                        bad = e
+        # a mark-bit store that precedes the table update on the way in is the same mistake seen from the other side
+        pre = [y for y in fn.nodes if "janet_gc_mark" in y.macro_names() and y.k == "asg" and order[id(y)] < order[id(x)]]
+        if bad is None and not pre:
+            chk.ok(rule, "janet_mark_abstract: threaded abstracts are recorded in the table before the mark bit is looked at")
+        else:
+            chk.violation(rule, "gc.c", "janet_mark_abstract", "threaded-abstracts-store", x.loc,
+                          "the store into janet_vm.threaded_abstracts is reached only %s: threaded abstracts are on no block list, the "
+                          "sweep never clears that bit, and from the second collection on a reachable ev/thread-chan or ev/lock is "
+                          "left `false` in the table and finalized" %
+                          ("past a test of the mark bit (`%s`)" % bad.text()[:60] if bad is not None else "after the mark bit has been set"))
+    chk.floor(rule, 1, len(puts))
+
+
+def _ringmark_rule(chk, prog):
+    """The event loop's queues are rings.  A function that visits every item (mark callbacks, the channel marshaller)
+    has to cover [head, tail) when head <= tail and both [head, capacity) and [0, tail) once the ring has wrapped.  A
+    walk that starts at head with any other bound, or that lacks the [0, tail) part, skips live items: unmarked fibers
+    parked in a channel are freed while they wait."""
+    rule = "C01-RINGMARK"
+    chk.rule(rule, "a function that walks a ring queue from its head covers all three segments: head..tail, head..capacity and 0..tail")
+    n = 0
+    for fn in prog.tus["ev.c"].funcs.values():
+        walks = {}
+        for x in fn.nodes:
+            if x.k != "for" or x.kids[0] is None or x.kids[1] is None:
+                continue
+            inits = [y for y in x.kids[0].walk() if (y.k == "asg" and y.op == "=") or (y.k == "vardecl" and y.kids)]
+            cond = strip_casts(x.kids[1])
+            if not inits or cond.k != "bin" or cond.op not in ("<", "!="):
+                continue
+            start = strip_casts(inits[0].kids[1] if inits[0].k == "asg" else inits[0].kids[0])
+            end = strip_casts(cond.kids[1])
+            def qf(e):
+                return (e.kids[0].text(), e.field) if e.k == "mem" and e.rec == "JanetQueue" else None
+            s_, e_ = qf(start), qf(end)
+            if s_ and s_[1] == "head":
+                # a walk that wraps its own index (i = (i + 1) % capacity, or a reset to 0 inside) covers the ring in one loop
+                iv = inits[0].kids[0].name if inits[0].k == "asg" and inits[0].kids[0].k == "ref" else inits[0].name
+                modular = any((y.k == "bin" and y.op == "%") or y.k == "cond" or
+                              (y.k == "asg" and y.kids[0].k == "ref" and y.kids[0].name == iv and strip_casts(y.kids[1]).k == "int" and strip_casts(y.kids[1]).v == 0)
+                              for k in x.kids[2:] if k is not None for y in k.walk())
+                if modular:
+                    for seg in (("head", "tail"), ("head", "capacity"), ("0", "tail")):
+                        walks.setdefault(s_[0], []).append(seg + (x,))
+                    continue
+                walks.setdefault(s_[0], []).append(("head", e_[1] if e_ and e_[0] == s_[0] else "?" + end.text(), x))
+            elif start.k == "int" and start.v == 0 and e_ and e_[1] == "tail":
+                walks.setdefault(e_[0], []).append(("0", "tail", x))
+        for q, ws in sorted(walks.items()):
+            if not any(a == "head" for a, b, x in ws):
+                continue
+            n += 1
+            chk.instance(rule)
+            chk.analysed(fn)
+            have = set((a, b) for a, b, x in ws)
+            missing = [("head", "tail"), ("head", "capacity"), ("0", "tail")]
+            missing = [m for m in missing if m not in have]
+            odd = [(a, b, x) for a, b, x in ws if b.startswith("?")]
+            if not missing and not odd:
+                chk.ok(rule, "%s: %s walked as head..tail | head..capacity + 0..tail" % (fn.name, q))
+            else:
+                x = (odd or ws)[0][2]
+                chk.violation(rule, "ev.c", fn.name, "ring:" + q.replace(" ", ""), x.loc,
+                              "%s walks the ring %s from its head but %s: items stored in the wrapped part of the ring are skipped (an "
+                              "unmarked fiber parked in a channel is freed while it waits)" %
+                              (fn.name, q, "; ".join(["bounds the walk by `%s`" % b[1:] for a, b, x in odd] +
+                                                     ["has no %s..%s segment" % m for m in missing])))
+    chk.floor(rule, 4, n)
 
 
 def _markbit_rule(chk, prog):
